@@ -2,7 +2,8 @@
 (***************************************************************************)
 (* Judge for C20.  Data!Cases[c] = [net, ch (seq <<p,l,r>>), seq (the      *)
 (* bottom-up order the estimate was computed in), chi, late, uncapped      *)
-(* (BOOLEAN: chi at least every bond that arises), rep [flops, maxsize,    *)
+(* (BOOLEAN: chi is the harness's "huge"; the judge itself finds the other cases in which chi is at least every bond
+   that arises: Compressed!NothingTruncated), rep [flops, maxsize,    *)
 (* peak, write] (what compressed_contract_stats reported)].                *)
 (* The report must equal the Compressed.tla machine (sizes always, flops   *)
 (* when uncapped), the uncapped machine must equal the exact figures of    *)
@@ -18,12 +19,14 @@ Clause(k) ==
     IF ~Ordinary(k.net) THEN "network-not-ordinary"
     ELSE IF ~Complete(k.net, ch) THEN "tree-not-complete"
     ELSE IF ~LegalOrder(ch, k.seq) THEN "order-illegal"
-    ELSE LET e == Estimate(k.net, ch, k.chi, k.late, k.seq) IN
+    ELSE LET e == Estimate(k.net, ch, k.chi, k.late, k.seq)
+             untr == k.uncapped \/ NothingTruncated(k.net, ch, k.chi, k.late, k.seq) IN
     IF k.rep.maxsize # e.maxsize THEN "largest-tensor-differs-from-model"
     ELSE IF k.rep.peak # e.peak THEN "peak-differs-from-model"
     ELSE IF k.rep.write # e.write THEN "write-differs-from-model"
-    ELSE IF k.uncapped /\ k.rep.flops # e.flops THEN "flops-differ-from-model"
-    ELSE IF k.uncapped /\ ~ExactWhenUncapped(k.net, ch, k.late, k.seq) THEN "uncapped-estimate-not-exact"
+    ELSE IF untr /\ k.rep.flops # e.flops THEN "flops-differ-from-model"
+    ELSE IF untr /\ e # Estimate(k.net, ch, Huge, k.late, k.seq) THEN "spec-inconsistent"
+    ELSE IF untr /\ ~ExactWhenUncapped(k.net, ch, k.late, k.seq) THEN "uncapped-estimate-not-exact"
     ELSE IF ~NeverExceedsUncapped(k.net, ch, k.chi, k.late, k.seq) THEN "capped-estimate-exceeds-uncapped"
     ELSE "ok"
 Init == c = 1
